@@ -168,3 +168,19 @@ Theorem C03_trees_with_warm_caches : forall s,
   WarmTreeDefs.Sound (snd (map_of st s c)) s.
 Proof. exact WarmTreeMain.warm_map. Qed.
 Print Assumptions C03_trees_with_warm_caches.
+
+(* the checker accepts the model also with combined-map leaves and with warm caches *)
+From RS Require Proofs.ChkMoreComb Proofs.ChkMoreWarmC03.
+Theorem C03_checker_combined_leaves : forall s ws,
+  CombLeafTree.rshape2 s = true -> treeA s = true -> rsmall s = true -> k1_shape s = false ->
+  WfAllChk.enc_small [] s -> chk_C03 s (api_tree s ws) = 0.
+Proof. exact ChkMoreComb.chk_C03_tree2. Qed.
+Print Assumptions C03_checker_combined_leaves.
+
+Theorem C03_checker_warm_caches : forall s ws,
+  ColdCache.ids_distinct s -> Checkers.ChkHist.k2_shape s = false ->
+  RStreamTree.rshape (ColdCache.uncache s) = true -> treeA s = true ->
+  BoundsPos.tiny (ColdCache.uncache s) = true -> k1_shape s = false ->
+  chk_C03 s (api_tree s ws) = 0.
+Proof. exact ChkMoreWarmC03.C03_warm_checker. Qed.
+Print Assumptions C03_checker_warm_caches.
